@@ -48,6 +48,13 @@ def indexing(case, d):
             if ctx is not None:
                 ctx.__exit__(None, None, None); ctx = None
             out.append(dict(k=k, leak=fdcount(path))); continue
+        if k == 'mode':
+            try:
+                a.accessmode = acc['mode']
+                out.append(dict(k=k, res=['ok']))
+            except Exception as e:
+                out.append(dict(k=k, res=['exc', type(e).__name__]))
+            continue
         if k in ('grow', 'shrink', 'hide'):
             o = dict(k=k)
             try:
